@@ -146,9 +146,7 @@ def main(argv=None):
             crashes.append((uname, "unit generated zero obligations (vacuous)"))
             continue
         missing = set(meta.get("expect_reach", ())) - r.reached
-        if missing:
-            crashes.append((uname, "vacuity guard: never reached %s" % sorted(missing)))
-            continue
+        n_vio_before = len(violations)
         if r.bounded:
             bounded_units.append(uname)
         for o in r.obligations:
@@ -176,6 +174,10 @@ def main(argv=None):
                     gaps.append((full, (o.replay or {}).get("error") or "native run satisfies the contract under the solver's model"))
             else:
                 undecided.append((full, o.reason or "solver unknown"))
+        if missing and len(violations) == n_vio_before:
+            # a reachability label that is never reached makes the contract (partly) vacuous; only a checker
+            # problem if the unit did not report a violation explaining it
+            crashes.append((uname, "vacuity guard: never reached %s" % sorted(missing)))
 
     # ---------------------------------------------------------------- bounded stand-ins / extra native parts
     bounded_info = None
@@ -200,7 +202,7 @@ def main(argv=None):
 
     # ---------------------------------------------------------------- report
     rc = 0
-    replay_dir = os.path.join(VERIF, "replays", pid)
+    replay_dir = os.path.join(VERIF, "replays", pid) if not os.environ.get("VERIF_NO_EVIDENCE") else os.path.join(runner.REPO, "_replays", pid)
     printed_known = set()
     for k, full in known_hits:
         key = k.get("id", k.get("what"))
@@ -281,7 +283,7 @@ def main(argv=None):
         "wall_s": round(wall, 2),
         "violations": len(violations),
     }
-    if not a.unit:
+    if not a.unit and not os.environ.get("VERIF_NO_EVIDENCE"):
         os.makedirs(os.path.join(VERIF, "evidence"), exist_ok=True)
         with open(os.path.join(VERIF, "evidence", pid + ".json"), "w") as f:
             json.dump(ev, f, indent=1, default=str)
